@@ -220,37 +220,26 @@ Proof.
   rewrite E. cbn. split; [reflexivity|]. intros c' f'. reflexivity.
 Qed.
 
-(** ---- every history: the ledger holds after every history in which no rename was cut short by a panic ---- *)
+(** ---- every history (induction over the request list, all tapes) ---- *)
 Fixpoint run (s : sstate) (h : list (connid * tmsg * list answer)) : sstate :=
   match h with
   | [] => s
   | (c, m, t) :: r => run (fst (fst (fst (step s c m t)))) r
   end.
 
-(** no rename request of the history was answered EFAULT *)
-Fixpoint no_broken_rename (s : sstate) (h : list (connid * tmsg * list answer)) : Prop :=
-  match h with
-  | [] => True
-  | (c, m, t) :: r =>
-      (is_rename m = true -> snd (fst (fst (step s c m t))) <> RErr linux_EFAULT) /\
-      no_broken_rename (fst (fst (fst (step s c m t)))) r
-  end.
-
-Theorem ledger_every_history h : no_broken_rename init_state h -> Ledger (run init_state h).
+Theorem ledger_every_history h : Ledger (run init_state h).
 Proof.
-  assert (G : forall s, Ledger s -> no_broken_rename s h -> Ledger (run s h)).
-  { induction h as [|[[c m] t] r IH]; intros s HL Hn; cbn; [exact HL|]. destruct Hn as [H1 H2].
-    apply IH; [apply ledger_step; assumption|exact H2]. }
+  assert (G : forall s, Ledger s -> Ledger (run s h)).
+  { induction h as [|[[c m] t] r IH]; intros s HL; cbn; [exact HL|]. apply IH, ledger_step, HL. }
   apply G, ledger_init.
 Qed.
 
 Theorem refusals_every_history h c m tape e :
-  no_broken_rename init_state h ->
   let s := run init_state h in
   spec_reject (abs_state s) c m = Some e ->
   (forall f, m = Tremove f -> tlookup (c, f) (st_fids s) = None) ->
   step s c m tape = (s, RErr e, [], tape).
-Proof. intros Hn s Hr Hrm. apply refines_refusals; auto. apply ledger_every_history; exact Hn. Qed.
+Proof. intros s Hr Hrm. apply refines_refusals; auto. apply ledger_every_history. Qed.
 
 (** ---- C09: components are walked only from fidRefs whose recorded type is a directory ---- *)
 (** a walk reference that is not a directory: the component is NOT walked -- no Walk / WalkGetAttr
